@@ -4,6 +4,7 @@ C14 — Tie: what the extractor read from core/stores/sqlx/{tx,sqlconn}.go and c
 -/
 import GoZero.Extracted.C14
 import GoZero.C14.TieSem
+import GoZero.C14.Proofs
 namespace GoZero.C14.Tie
 open GoZero.C14 GoZero.C14.TieSem
 open GoZero.Extracted.C14
@@ -18,15 +19,16 @@ stuck and lets no panic escape.  Swapping Commit/Rollback, inverting a condition
 moving the body call, turning `%w` into `%s` (or back) all break this theorem. -/
 theorem tie_transactOnConn_sem (f : Faults) (b : Body) :
     outcome (run ⟨f, (runBody b).1, .ret (runBody b).2⟩ transactOnConnBlk {}) =
-      some ((transactOnConn f b).log, (transactOnConn f b).runs, (transactOnConn f b).ret) := by
-  unfold transactOnConn
+      some ((transactOnConn f b).log, (transactOnConn f b).runs, (transactOnConn f b).ret,
+            (transactOnConn f b).escaped) := by
+  unfold transactOnConn transactOnce
   generalize (runBody b).1 = evs
   generalize (runBody b).2 = out
-  obtain ⟨bg, cm, rb⟩ := f
-  cases bg <;> cases cm <;> cases rb <;> cases out <;>
-    first
-    | rfl
-    | simp [transactOnConnBlk, run, outcome, assign, doInit, evalCond, doRet, callBody, fmtErr, argVal, Err.of]
+  obtain ⟨bg, cm, rb, bc, cp, rp⟩ := f
+  cases hg : Faults.givesUp ⟨bg, cm, rb, bc, cp, rp⟩ <;>
+  cases bg <;> cases cm <;> cases rb <;> cases cp <;> cases rp <;> cases out <;>
+    simp [transactOnConnBlk, run, outcome, assign, doInit, evalCond, doRet, callBody, fmtErr, argVal, Err.of, hg,
+      badPrefix_append]
 
 /-- the tree carries one of the two analysed versions of `transactOnConn`: the pinned one or the one with
 fixes/C14-commit-on-goexit-or-nil-panic.patch applied -/
@@ -36,30 +38,31 @@ theorem tie_pinned_or_fixed : transactOnConnBlk = pinnedBlk ∨ transactOnConnBl
 `runtime.Goexit()` or through `panic(nil)` under GODEBUG=panicnil=1 is invisible to `recover() != nil`.
 The pinned code then takes the success branch and *commits* (and, for the nil panic, returns the commit's
 result — nil); the patched code rolls back and reports an error.  Witnesses on the pinned term: -/
-theorem witness_pinned_goexit_commits (evs : List Ev) (f : Faults) (hb : f.begin = true) :
-    (run ⟨f, evs, .goexit⟩ pinnedBlk {}).log = .begin true :: (evs ++ [.commit f.commit]) := by
-  obtain ⟨bg, cm, rb⟩ := f
-  cases hb
-  simp [pinnedBlk, run, assign, doInit, evalCond, doRet, callBody]
+theorem witness_pinned_goexit_commits (evs : List Ev) (cm rb : Bool) :
+    (run ⟨{ begin := true, commit := cm, rollback := rb }, evs, .goexit⟩ pinnedBlk {}).log =
+      .begin true :: (evs ++ [.commit cm]) := by
+  simp [pinnedBlk, run, assign, doInit, evalCond, doRet, callBody, Faults.givesUp, maxBeginAttempts, badPrefix]
 
 theorem witness_pinned_nilpanic_commits_returns_nil (evs : List Ev) :
-    outcome (run ⟨⟨true, true, true⟩, evs, .nilPanic⟩ pinnedBlk {}) =
-      some (.begin true :: (evs ++ [.commit true]), 1, none) := by
-  simp [pinnedBlk, run, outcome, assign, doInit, evalCond, doRet, callBody]
+    outcome (run ⟨{ begin := true, commit := true, rollback := true }, evs, .nilPanic⟩ pinnedBlk {}) =
+      some (.begin true :: (evs ++ [.commit true]), 1, none, false) := by
+  simp [pinnedBlk, run, outcome, assign, doInit, evalCond, doRet, callBody, Faults.givesUp, maxBeginAttempts,
+    badPrefix]
 
 /-- … and the patched term rolls both back (and turns the nil panic into an error): -/
-theorem fixed_goexit_rolls_back (evs : List Ev) (f : Faults) (hb : f.begin = true) :
-    (run ⟨f, evs, .goexit⟩ fixedBlk {}).log = .begin true :: (evs ++ [.rollback f.rollback]) := by
-  obtain ⟨bg, cm, rb⟩ := f
-  cases hb
-  cases rb <;> simp [fixedBlk, run, assign, doInit, evalCond, doRet, callBody, fmtErr, argVal]
+theorem fixed_goexit_rolls_back (evs : List Ev) (cm rb : Bool) :
+    (run ⟨{ begin := true, commit := cm, rollback := rb }, evs, .goexit⟩ fixedBlk {}).log =
+      .begin true :: (evs ++ [.rollback rb]) := by
+  cases rb <;>
+    simp [fixedBlk, run, assign, doInit, evalCond, doRet, callBody, fmtErr, argVal, Faults.givesUp,
+      maxBeginAttempts, badPrefix]
 
-theorem fixed_nilpanic_rolled_back_and_reported (evs : List Ev) (f : Faults) (hb : f.begin = true) :
-    ∃ e, outcome (run ⟨f, evs, .nilPanic⟩ fixedBlk {}) =
-      some (.begin true :: (evs ++ [.rollback f.rollback]), 1, some e) := by
-  obtain ⟨bg, cm, rb⟩ := f
-  cases hb
-  cases rb <;> simp [fixedBlk, run, outcome, assign, doInit, evalCond, doRet, callBody, fmtErr, argVal]
+theorem fixed_nilpanic_rolled_back_and_reported (evs : List Ev) (cm rb : Bool) :
+    ∃ e, outcome (run ⟨{ begin := true, commit := cm, rollback := rb }, evs, .nilPanic⟩ fixedBlk {}) =
+      some (.begin true :: (evs ++ [.rollback rb]), 1, some e, false) := by
+  cases rb <;>
+    simp [fixedBlk, run, outcome, assign, doInit, evalCond, doRet, callBody, fmtErr, argVal, Faults.givesUp,
+      maxBeginAttempts, badPrefix]
 
 /-- the decision is made on the *named* result `err` (the deferred closure assigns to it) -/
 theorem tie_namedResult : transactOnConnBlkResults = "err" ∧ transactBlkResults = "err" := by decide
